@@ -306,9 +306,87 @@ func (w *c25World) markBoundary() {
 	}
 }
 
+// iterCompare runs view i's Iter over rg (nil, or stripped start/limit, each nil or non-empty) and compares what the
+// callback received with the model: only keys under the prefix and inside the range, in order, with their values, and
+// nothing after the callback said stop.
+func (w *c25World) iterCompare(i int, rg *leveldbutil.Range, asc bool, stopAfter int) {
+	t, v, p := w.t, w.views[i], w.prefixes[i]
+
+	var start, limit []byte
+	if rg != nil {
+		start, limit = rg.Start, rg.Limit
+	}
+
+	var got []string
+
+	if err := v.Iter(rg, func(k, b []byte) (bool, error) {
+		got = append(got, string(k))
+
+		if want, ok := w.model[p+string(k)]; !ok || !bytes.Equal(want, b) {
+			w.r.Violation(t, "iter-foreign-or-stale", "view[%q].Iter(start=%q limit=%q asc=%v) delivered (%q,%q); the model has (%q,%v) for that key; history: %s",
+				p, start, limit, asc, k, b, want, ok, w.history())
+		}
+
+		return stopAfter == 0 || len(got) < stopAfter, nil
+	}, asc); err != nil {
+		t.Fatalf("iter: %v", err)
+	}
+
+	var want []string
+
+	for _, k := range w.keysUnder(p) {
+		s := k[len(p):]
+		if c25InRange(s, start, limit) {
+			want = append(want, s)
+		}
+	}
+
+	if !asc {
+		for a, b := 0, len(want)-1; a < b; a, b = a+1, b-1 {
+			want[a], want[b] = want[b], want[a]
+		}
+	}
+
+	if stopAfter > 0 && len(want) > stopAfter {
+		want = want[:stopAfter]
+	}
+
+	if len(got) != len(want) || fmt.Sprintf("%q", got) != fmt.Sprintf("%q", want) {
+		w.r.Violation(t, "iter-range-differs", "view[%q].Iter(start=%q limit=%q asc=%v stopAfter=%d) delivered %s, the model has %s (all raw keys %s); history: %s",
+			p, start, limit, asc, stopAfter, c25Show(got), c25Show(want), c25Show(w.sortedKeys()), w.history())
+	}
+
+	if start == nil || limit == nil {
+		w.markBoundary()
+	}
+}
+
+// removeView calls Remove() on view i: exactly the model keys under its prefix must be gone from the shared database.
+func (w *c25World) removeView(i int) {
+	p := w.prefixes[i]
+
+	w.markBoundary()
+	w.note("view[%q].Remove()", p)
+
+	if err := w.views[i].Remove(); err != nil {
+		w.t.Fatalf("remove: %v", err)
+	}
+
+	for _, k := range w.keysUnder(p) {
+		delete(w.model, k)
+	}
+
+	w.checkRaw("remove")
+}
+
 func (w *c25World) step() {
 	t := w.t
 	i := rapid.IntRange(0, len(w.views)-1).Draw(t, "view")
+
+	if w.focus >= 0 && rapid.IntRange(0, 3).Draw(t, "focusBias") > 0 {
+		i = w.focus
+	}
+
 	v := w.views[i]
 	p := w.prefixes[i]
 
@@ -430,8 +508,6 @@ func (w *c25World) step() {
 	case "iter":
 		var rg *leveldbutil.Range
 
-		var start, limit []byte
-
 		kind := rapid.IntRange(0, 4).Draw(t, "rangeKind")
 
 		switch kind {
@@ -439,78 +515,23 @@ func (w *c25World) step() {
 		case 1: // BytesPrefix of a short stripped prefix (the way every mitum caller builds ranges)
 			sp := rapid.SliceOfN(rapid.SampledFrom(c25Alphabet), 1, 2).Draw(t, "subPrefix")
 			rg = leveldbutil.BytesPrefix(sp)
-			start, limit = rg.Start, rg.Limit
 		default:
 			rg = &leveldbutil.Range{}
 			if kind != 2 {
-				start = w.suffixFor(i, "start")
-				rg.Start = start
+				rg.Start = w.suffixFor(i, "start")
 			}
 
 			if kind != 3 {
-				limit = w.suffixFor(i, "limit")
-				rg.Limit = limit
+				rg.Limit = w.suffixFor(i, "limit")
 			}
 		}
 
 		asc := rapid.Bool().Draw(t, "ascending")
 		stopAfter := rapid.IntRange(0, 6).Draw(t, "stopAfter") // 0: never stop
 
-		var got []string
-
-		if err := v.Iter(rg, func(k, b []byte) (bool, error) {
-			got = append(got, string(k))
-
-			if want, ok := w.model[p+string(k)]; !ok || !bytes.Equal(want, b) {
-				w.r.Violation(t, "iter-foreign-or-stale", "view[%q].Iter(start=%q limit=%q asc=%v) delivered (%q,%q); the model has (%q,%v) for that key; history: %s",
-					p, start, limit, asc, k, b, want, ok, w.history())
-			}
-
-			return stopAfter == 0 || len(got) < stopAfter, nil
-		}, asc); err != nil {
-			t.Fatalf("iter: %v", err)
-		}
-
-		var want []string
-
-		for _, k := range w.keysUnder(p) {
-			s := k[len(p):]
-			if c25InRange(s, start, limit) {
-				want = append(want, s)
-			}
-		}
-
-		if !asc {
-			for a, b := 0, len(want)-1; a < b; a, b = a+1, b-1 {
-				want[a], want[b] = want[b], want[a]
-			}
-		}
-
-		if stopAfter > 0 && len(want) > stopAfter {
-			want = want[:stopAfter]
-		}
-
-		if len(got) != len(want) || fmt.Sprintf("%q", got) != fmt.Sprintf("%q", want) {
-			w.r.Violation(t, "iter-range-differs", "view[%q].Iter(start=%q limit=%q asc=%v stopAfter=%d) delivered %q, the model has %q (all raw keys %q); history: %s",
-				p, start, limit, asc, stopAfter, got, want, w.sortedKeys(), w.history())
-		}
-
-		if start == nil || limit == nil {
-			w.markBoundary()
-		}
+		w.iterCompare(i, rg, asc, stopAfter)
 	case "remove":
-		w.markBoundary()
-		w.note("view[%q].Remove()", p)
-
-		if err := v.Remove(); err != nil {
-			t.Fatalf("remove: %v", err)
-		}
-
-		for _, k := range w.keysUnder(p) {
-			delete(w.model, k)
-		}
-
-		w.checkRaw("remove")
+		w.removeView(i)
 	case "removebyprefix":
 		// a whole prefix, a sub-prefix inside a view, or a neighbour string
 		target := []byte(p)
@@ -619,6 +640,261 @@ func (w *c25World) step() {
 	w.checkViews()
 }
 
+// Bulk histories: one view is filled with a large keyset, removed as a whole and then used again as the SAME
+// PrefixStorage value. Sizes run from empty to beyond a thousand keys, so that removal code working in chunks, pages or
+// resumable ranges crosses its internal boundaries; nothing it remembers from one removal may show in later operations.
+var c25BulkSizes = []int{0, 1, 332, 333, 334, 700, 1000}
+
+func c25BulkBucket(n int) string {
+	for _, s := range c25BulkSizes {
+		if n == s {
+			return fmt.Sprintf("bulk:n=%d", n)
+		}
+	}
+
+	switch {
+	case n < 332:
+		return "bulk:n=2..331"
+	case n < 700:
+		return "bulk:n=335..699"
+	case n < 1000:
+		return "bulk:n=701..999"
+	default:
+		return "bulk:n=1001.."
+	}
+}
+
+// bulkFill writes n keys stem+"0000".. through (or, for via=raw, below) view i and returns the stripped keys in order.
+func (w *c25World) bulkFill(i int) []string {
+	t, v, p := w.t, w.views[i], w.prefixes[i]
+
+	n := 0
+	if rapid.IntRange(0, 3).Draw(t, "bulkSizeKind") > 0 {
+		n = rapid.SampledFrom(c25BulkSizes).Draw(t, "bulkN")
+	} else {
+		n = rapid.IntRange(2, 1200).Draw(t, "bulkNFree")
+	}
+
+	stem := rapid.SliceOfN(rapid.SampledFrom(c25Alphabet), 0, 2).Draw(t, "bulkStem")
+	via := rapid.SampledFrom([]string{"put", "batch", "batchfunc", "rawput"}).Draw(t, "bulkVia")
+	tag := rapid.Byte().Draw(t, "bulkTag")
+
+	keys := make([]string, n)
+	for j := range keys {
+		keys[j] = fmt.Sprintf("%s%04d", stem, j)
+	}
+
+	val := func(j int) []byte { return []byte{tag, byte(j), byte(j >> 8)} }
+
+	w.note("view[%q].fill(%d keys %q+0000.. via %s, tag %d)", p, n, stem, via, tag)
+	w.classes[c25BulkBucket(n)] = true
+	w.classes["bulk:via="+via] = true
+
+	switch via {
+	case "put":
+		for j, k := range keys {
+			if err := v.Put([]byte(k), val(j), nil); err != nil {
+				t.Fatalf("bulk put: %v", err)
+			}
+		}
+	case "rawput":
+		for j, k := range keys {
+			if err := w.st.Put([]byte(p+k), val(j), nil); err != nil {
+				t.Fatalf("bulk raw put: %v", err)
+			}
+		}
+	case "batch":
+		batch := v.NewBatch()
+		for j, k := range keys {
+			batch.Put([]byte(k), val(j))
+		}
+
+		if err := v.Batch(batch, nil); err != nil {
+			t.Fatalf("bulk batch: %v", err)
+		}
+	case "batchfunc":
+		size := rapid.SampledFrom([]int{1, 100, 333, 5000}).Draw(t, "bulkBatchSize")
+		add, done, cancel := v.BatchFunc(context.Background(), uint64(size), nil)
+
+		for j, k := range keys {
+			j, k := j, k
+
+			if err := add(func(b leveldbstorage.LeveldbBatch) { b.Put([]byte(k), val(j)) },
+				func(f func() error) error { return f() }); err != nil {
+				t.Fatalf("bulk batchfunc add: %v", err)
+			}
+		}
+
+		if err := done(func(f func() error) error { return f() }); err != nil {
+			t.Fatalf("bulk batchfunc done: %v", err)
+		}
+
+		cancel()
+	}
+
+	for j, k := range keys {
+		w.model[p+k] = val(j)
+	}
+
+	w.checkRaw("fill")
+	w.checkViews()
+
+	return keys
+}
+
+// bulkRemoval removes the whole prefix of view i: mostly through the view itself, sometimes through the package
+// functions working on the shared storage (the view must cope with either).
+func (w *c25World) bulkRemoval(i int) {
+	t, p := w.t, w.prefixes[i]
+
+	switch kind := rapid.IntRange(0, 5).Draw(t, "bulkRemovalKind"); kind {
+	case 4:
+		w.classes["bulk:removal=RemoveByPrefix"] = true
+		w.markBoundary()
+		w.note("RemoveByPrefix(%q)", p)
+
+		if err := leveldbstorage.RemoveByPrefix(w.st, []byte(p)); err != nil {
+			t.Fatalf("removebyprefix: %v", err)
+		}
+
+		for _, k := range w.keysUnder(p) {
+			delete(w.model, k)
+		}
+
+		w.checkRaw("removebyprefix")
+	case 5:
+		w.classes["bulk:removal=BatchRemove"] = true
+		w.markBoundary()
+
+		rg := leveldbutil.BytesPrefix([]byte(p))
+		start, limit := rg.Start, rg.Limit
+		lim := rapid.SampledFrom([]int{1, 7, 100, 333, 334, 5000}).Draw(t, "bulkBatchLimit")
+		w.note("BatchRemove(start=%q limit=%q, %d)", start, limit, lim)
+
+		removed, err := leveldbstorage.BatchRemove(w.st, rg, lim)
+		if err != nil {
+			t.Fatalf("batchremove: %v", err)
+		}
+
+		under := w.keysUnder(p)
+		for _, k := range under {
+			delete(w.model, k)
+		}
+
+		w.checkRaw("batchremove")
+
+		if removed != len(under) {
+			w.r.Violation(t, "batchremove-count", "BatchRemove(start=%q limit=%q, %d) reports %d removed keys, %d keys were in the range; history: %s",
+				start, limit, lim, removed, len(under), w.history())
+		}
+	default:
+		w.classes["bulk:removal=view.Remove"] = true
+		w.removeView(i)
+	}
+
+	w.checkViews()
+}
+
+// bulkReuse keeps using view i after its prefix was removed: keys below, inside and above the span the removed keys
+// covered are written through the view, then nil and partial ranges are iterated in both directions.
+func (w *c25World) bulkReuse(i int, former []string) {
+	t, v, p := w.t, w.views[i], w.prefixes[i]
+
+	var cand [][]byte
+
+	if len(former) > 0 {
+		lo := []byte(former[0])
+
+		switch {
+		case lo[len(lo)-1] > 0:
+			lo[len(lo)-1]--
+		case len(lo) > 1:
+			lo = lo[:len(lo)-1]
+		default:
+			lo = nil // nothing non-empty sorts below "\x00"
+		}
+
+		if lo != nil {
+			cand = append(cand, lo)
+		}
+
+		mid := former[rapid.IntRange(0, len(former)-1).Draw(t, "reuseMid")]
+		cand = append(cand, []byte(mid), append([]byte(mid), 'a'), append([]byte(former[len(former)-1]), 0x00))
+	}
+
+	cand = append(cand, c25Suffix(t, "reuseFreeA"), c25Suffix(t, "reuseFreeB"))
+
+	var put [][]byte
+
+	for _, k := range cand {
+		if !rapid.Bool().Draw(t, "reusePut") {
+			continue
+		}
+
+		val := c25Value(t)
+		w.note("view[%q].Put(%q,%q)", p, k, val)
+
+		if err := v.Put(k, val, nil); err != nil {
+			t.Fatalf("put: %v", err)
+		}
+
+		w.model[p+string(k)] = val
+		w.reused = true
+		put = append(put, k)
+	}
+
+	w.checkRaw("put")
+	w.checkViews()
+
+	for _, asc := range []bool{true, false} {
+		w.iterCompare(i, nil, asc, 0)
+
+		for _, k := range put {
+			w.iterCompare(i, &leveldbutil.Range{Start: k}, asc, 0)
+			w.iterCompare(i, &leveldbutil.Range{Limit: k}, asc, 0)
+		}
+
+		if len(put) > 1 {
+			a, b := put[0], put[len(put)-1]
+			if bytes.Compare(a, b) > 0 {
+				a, b = b, a
+			}
+
+			w.iterCompare(i, &leveldbutil.Range{Start: a, Limit: b}, asc, 0)
+		}
+	}
+}
+
+// bulkHistory: [0-4 steps] then 1-2 rounds of {fill, 0-3 steps, remove the prefix, reuse, 4-10 steps} on one view and a
+// final Remove() of that view; every step is followed by the whole-database and every-view comparison with the model.
+func (w *c25World) bulkHistory() {
+	t := w.t
+	w.focus = rapid.IntRange(0, len(w.views)-1).Draw(t, "focus")
+	w.classes["bulk"] = true
+
+	for j, n := 0, rapid.IntRange(0, 4).Draw(t, "preSteps"); j < n; j++ {
+		w.step()
+	}
+
+	for round, rounds := 0, rapid.IntRange(1, 2).Draw(t, "rounds"); round < rounds; round++ {
+		former := w.bulkFill(w.focus)
+
+		for j, n := 0, rapid.IntRange(0, 3).Draw(t, "midSteps"); j < n; j++ {
+			w.step()
+		}
+
+		w.bulkRemoval(w.focus)
+		w.bulkReuse(w.focus, former)
+
+		for j, n := 0, rapid.IntRange(4, 10).Draw(t, "postSteps"); j < n; j++ {
+			w.step()
+		}
+	}
+
+	w.removeView(w.focus)
+	w.checkViews()
+}
+
 func TestC25(t *testing.T) {
 	r := ev.Start(t, "C25")
 	defer r.Finish()
@@ -627,14 +903,17 @@ func TestC25(t *testing.T) {
 		"Remove/RemoveByPrefix(prefix|sub-prefix|neighbour)/BatchRemove(nil|prefix range|drawn range, limit 1..7) through the views and Put/Delete/Get/Iter on the raw storage " +
 		"(raw keys under a prefix, equal to a prefix, prefix cut by one byte, successor/predecessor of a prefix, free strings over {00,01,a,b,c,fe,ff}); " +
 		"after every step the whole raw key space and every view are compared with one Go map. " +
-		"non-trivial: >= 2 prefixes populated while a removal or an iteration reaching a prefix boundary ran; distinct by the step history")
+		"1 case in 6 is a bulk history on ONE long-lived PrefixStorage value: 1-2 rounds of {fill the view with 0/1/332/333/334/700/1000 or 2..1200 keys stem+NNNN " +
+		"(Put|Batch|BatchFunc|raw Put), 0-3 steps, remove the whole prefix (view.Remove, sometimes RemoveByPrefix or BatchRemove with limit 1..5000), " +
+		"write through the same view below/inside/above the span of the removed keys, Iter nil/start/limit/both ranges in both directions, 4-10 steps mostly on that view}, then Remove() again. " +
+		"non-trivial: >= 2 prefixes populated while a removal or an iteration reaching a prefix boundary ran (bulk histories: and the view was written again after its removal); distinct by the step history")
 	r.Floor(100)
 	r.Assume("prefix sets are prefix-free (mitum prefixes are fixed-length labels)",
 		"keys, range starts and range limits handed to a view are nil or non-empty (an empty key is how PrefixStorage signals 'closed')",
 		"goleveldb itself (ordering, batches, iterators) is trusted")
 
 	steps := r.N(30, 60)
-	r.Checks(500, 20000)
+	r.Checks(560, 22000)
 	r.ShrinkTime(20 * time.Second)
 
 	rapid.Check(t, func(rt *rapid.T) {
@@ -643,7 +922,8 @@ func TestC25(t *testing.T) {
 
 		defer st.Close()
 
-		w := &c25World{t: rt, r: r, st: st, prefixes: fam, model: map[string][]byte{}, classes: map[string]bool{}}
+		w := &c25World{t: rt, r: r, st: st, prefixes: fam, model: map[string][]byte{}, classes: map[string]bool{}, focus: -1}
+		bulk := rapid.IntRange(0, 5).Draw(rt, "shape") == 0
 		for _, p := range fam {
 			w.views = append(w.views, leveldbstorage.NewPrefixStorage(st, []byte(p)))
 		}
@@ -662,10 +942,15 @@ func TestC25(t *testing.T) {
 
 		w.checkRaw("seed")
 
-		for j := 0; j < steps; j++ {
-			w.step()
+		if bulk {
+			w.bulkHistory()
+		} else {
+			for j := 0; j < steps; j++ {
+				w.step()
+			}
 		}
 
+		nontrivial := w.boundary && (!bulk || w.reused)
 		fp := strings.Join(fam, "|") + "#" + w.history()
 
 		classes := []string{fmt.Sprintf("family:%q", fam)}
@@ -679,9 +964,9 @@ func TestC25(t *testing.T) {
 			classes = append(classes, "boundary-op-with-2+-populated")
 		}
 
-		r.Case(fp, w.boundary, classes...)
+		r.Case(fp, nontrivial, classes...)
 
-		if w.boundary && r.WantSample() {
+		if nontrivial && r.WantSample() {
 			r.Sample(map[string]any{"prefixes": fmt.Sprintf("%q", fam), "steps": len(w.log), "history_head": fmt.Sprintf("%.600s", w.history())})
 		}
 	})
